@@ -3,8 +3,11 @@ package main
 func init() {
 	register(&propDef{
 		ID: "C13", Engine: "disksim", Pkg: "./engines/disksim", Level: "fault_enumeration",
-		Runs:        map[string]int{"quick": 2400, "thorough": 60000},
-		MaxSec:      map[string]float64{"quick": 150, "thorough": 2400},
+		// Tiers are sized by work (runs, and the per-run fault-point cap in
+		// c13.go), so that evaluations are a function of (seed, tier) alone;
+		// MaxSec is only a safety net.
+		Runs:        map[string]int{"quick": 1600, "thorough": 60000},
+		MaxSec:      map[string]float64{"quick": 400, "thorough": 3000},
 		Rule:        "one run = one tape-drawn workload (payload class/length, partition into Write calls, codec {stub,zlib,lz4,zstd}, CChunkSize|DChunkSize, CPageSize, index location, temp-file flavour, 0-3 resources) executed fault-free against an independent spec validator + independent decoder + rac.Reader; in 'faults' mode the same workload is then re-executed once per (underlying storage operation, applicable fault kind) - every single-fault position - plus 8 drawn double faults. distinct = distinct workload fingerprints (config, payload hash, partition); non-trivial = at least 2 Write calls or at least one fault point enumerated",
 		Real:        []string{"lib/rac Writer, ChunkWriter, Reader, ChunkReader", "lib/raczlib, lib/raclz4, lib/raczstd (cgo), lib/zlibcut, lib/flatecut, lib/internal/racdict"},
 		Stub:        []string{"io.Writer and TempFile (simulated disk with numbered fault points)", "stub identity codec 'verifID' (long codec, supports Cut and secondary+tertiary resources) in about half of the runs"},
